@@ -1,5 +1,9 @@
 """C13 — JSON texts and values round-trip and agree with RFC 8259 (DESIGN §7 C13).
 
+Extension round: the numeric-locale repair FC13b (detail::jsonToDouble + std::to_chars) is modelled (Model/JsonApi.lean: Libc, opsIn) and
+run under locales built with localedef (`locale` op); JsonStreamParser, the parse/serialize wrappers and the value-construction API are in
+the Model with theorems (S1-S3, W1-W3) and `api` ops; NaN/Infinity (J3_nonfinite); J2's `within lim` at the default limits (`serlim`).
+
 Tie: translator unit `json` (limits, guards, escape tables, surrogate/UTF-8 constants, double format recipe, error messages)
 + lockstep of the real parser/serializer (ASan+UBSan, text in an exactly sized heap block) against the Lean model's driver.
 Independent reference for the monitors: Python's `json` (strict RFC 8259 decoder once NaN/Infinity are refused), `float()`,
@@ -42,16 +46,54 @@ OBLIGATIONS = [
      "statement": "lookup after obj[k] = v yields v for k and is unchanged for every other key"},
     {"id": "C13_U1", "theorem": "Iora.C13.U1_utf8", "kind": "proved",
      "statement": "_appendUtf8 = Lean's String.utf8EncodeChar on every Char; every \\u escape decodes to a Unicode scalar value appended as its UTF-8 encoding"},
+    {"id": "C13_L0", "theorem": "Iora.C13.L0_toDouble_locale_free", "kind": "proved",
+     "statement": "detail::jsonToDouble (find('.'), replace by localeconv()->decimal_point, strtod) returns for every JSON number token, under ANY non-empty LC_NUMERIC decimal point for which strtod reads the localised token as the C strtod reads the JSON token, what the C-locale strtod returns (repair FC13b)"},
+    {"id": "C13_L1", "theorem": "Iora.C13.L1_decode_any_locale", "kind": "proved",
+     "statement": "J1 without the C-locale assumption: every RFC 8259 text within the limits is accepted under every such decimal point and decodes to the value it denotes in the C locale"},
+    {"id": "C13_L2", "theorem": "Iora.C13.L2_roundtrip_any_locale", "kind": "proved",
+     "statement": "J2 without the C-locale assumption: LibcOk is assumed for the C locale only; parse (serialize v) = ok v in every process locale"},
+    {"id": "C13_L2_sorted", "theorem": "Iora.C13.L2_roundtrip_sorted_any_locale", "kind": "proved",
+     "statement": "the sorted round trip in every process locale"},
+    {"id": "C13_L3", "theorem": "Iora.C13.L3_output_any_locale", "kind": "proved",
+     "statement": "J3 in every process locale: the output is strict RFC 8259 text (std::to_chars is locale independent; the read-back test of _formatDouble goes through jsonToDouble)"},
+    {"id": "C13_L4", "theorem": "Iora.C13.L4_output_bytes_locale_free", "kind": "proved",
+     "statement": "serialize/dump() of ANY value writes byte for byte the C-locale output under every such decimal point"},
+    {"id": "C13_Locale_sat", "theorem": "Iora.C13.LocaleLibc_satisfiable", "kind": "proved",
+     "statement": "the hypotheses of L0-L3 are satisfiable with a decimal comma (toy libc)"},
+    {"id": "C13_J3_nonfinite", "theorem": "Iora.C13.J3_nonfinite", "kind": "proved",
+     "statement": "NaN/+-Infinity: for EVERY value whose finite part is good, serialize v = serialize (v with every non-finite double replaced by null), strict RFC 8259 text denoting that value (valid JSON; the round trip yields null there, J2 is not claimed)"},
+    {"id": "C13_S1", "theorem": "Iora.C13.S1_stream_accepts", "kind": "proved",
+     "statement": "JsonStreamParser: for EVERY chunking of a text that parse accepts under the limits, after the feeds finish() is true, complete() holds and value() = parse of the concatenation"},
+    {"id": "C13_S2", "theorem": "Iora.C13.S2_stream_error", "kind": "proved",
+     "statement": "JsonStreamParser: if not complete after finish(), finish() is false, parse of the concatenation fails and error() is exactly that failure (offset inside the input by J4)"},
+    {"id": "C13_S3", "theorem": "Iora.C13.S3_stream_value", "kind": "proved",
+     "statement": "JsonStreamParser: a latched value is parse of the concatenation of a prefix of the chunks and respects the limits, whatever is fed afterwards"},
+    {"id": "C13_W1", "theorem": "Iora.C13.W1_parseOrThrow", "kind": "proved",
+     "statement": "parseOrThrow (and through it parse(string), parseString, operator>>) returns exactly what parse accepts and throws exactly parse's error with _getLocation's line/column"},
+    {"id": "C13_W3", "theorem": "Iora.C13.W3_location", "kind": "proved",
+     "statement": "_getLocation: the line of offset off is 1 + the number of line feeds before it, the column lies in 1 .. off + 1"},
+    {"id": "C13_W2", "theorem": "Iora.C13.W2_stream_operators_gap", "kind": "proved",
+     "statement": "the gap J2's `within lim` leaves (review F3): operator>> reads with DEFAULT ParseLimits, so a good value beyond them (10 001 array elements) does NOT come back through operator<< / operator>> - proved as an existence statement, not hidden"},
     {"id": "C13_gen", "theorem": "Iora.C13.gen_conformance", "kind": "proved",
-     "statement": "what the model hard-codes (error messages per function, literals, dispatch bytes, delegated primitives, hex ranges, UTF-8 literals, format recipe, separators) equals the facts regenerated from the source"},
+     "statement": "what the model hard-codes (error messages per function, literals, dispatch bytes, delegated primitives, hex ranges, UTF-8 literals, format recipe std::to_chars/general + detail::jsonToDouble + std::strtod, buffer >= the 24 characters of the longest %.17g text, separators, and the statement text of the 22 public-surface functions Model/JsonApi.lean mirrors: constructors, push_back, operator[], dump, stream operators, parse wrappers, JsonStreamParser::feed/finish) equals the facts regenerated from the source"},
 ]
 ANCHOR_FILES = ["include/iora/parsers/json.hpp"]
-NOT_PROVED = ["LibcOk for the real libc (the four facts about snprintf(%.{15,16,17}g)/strtod that J2/J3 assume: token shape, the 17-digit text reads back exactly, the sign of zero "
-              "survives, `.0` does not change the value): validated bit for bit by the lockstep against Model/JsonFloat.lean (exact big-integer arithmetic) and against "
-              "Python's float()/'%.17g'; _formatDouble's own logic IS proved from them (J2_formatDouble)",
+NOT_PROVED = ["LibcOk for the real libc in the C locale (the four facts about std::to_chars(general, 15..17) / strtod that J2/J3 assume: token shape, the 17-digit text reads back exactly, the "
+              "sign of zero survives, `.0` does not change the value) and LocaleLibc (strtod under a decimal point dp reads the token with dp in place of `.` as the C strtod reads "
+              "the JSON token): validated bit for bit by the lockstep against Model/JsonFloat.lean (exact big-integer arithmetic, locale-aware strtod) under the C locale, a decimal "
+              "comma and a two-byte decimal point (locales built with localedef on every run), and against Python's float()/'%.17g'; _formatDouble's and jsonToDouble's own logic "
+              "IS proved from them (J2_formatDouble, L0)",
               "`without undefined behaviour` has no theorem: the model is total and never reads outside the text by construction (J4), but UB freedom of the C++ itself is "
               "only searched for (ASan+UBSan on every generated input, text in an exactly sized heap block, default-depth nesting in a child with the default 8 MiB stack)",
-              "stack depth: the model has no stack; gen_conformance pins depthMaxDefault <= stackSafeDepth and the plugin measures the real bytes per nesting level on every run"]
+              "stack depth (review F2): the model has no stack. parse, dump()/serialize, the copy constructor, operator== and ~Json recurse once per nesting level; J1-J4 are "
+              "claimed for values and limits of nesting depth <= stackSafeDepth (1000) only: gen_conformance pins depthMaxDefault <= stackSafeDepth, the plugin measures the real "
+              "bytes per level on every run (budget: a quarter of the default 8 MiB stack) and runs dump/re-parse/copy/compare/destroy of programmatically built values at depth "
+              "101 and stackSafeDepth in an 8 MiB child. Far beyond that the code overflows the stack (measured at -O1, 8 MiB: parse with depthMax raised survives 25 000 "
+              "levels and dies at 30 000; dump() survives 40 000 and dies at 50 000; ~Json dies near 400 000 - so a value the parser produced never overflows dump(), a "
+              "programmatically built one can); an iterative rewrite of parser+serializer is not a small repair, so this is a stated hypothesis, not a theorem and not a finding",
+              "J2's hypothesis `v.within lim` is real (review F3): Json::parse's default ParseLimits reject the program's own dump() of a value with > 10 000 elements/members, a "
+              "string > 1 000 000 bytes or depth > 100; operator>> and JsonFileStore (property C11) always read with the defaults. W2_stream_operators_gap proves the gap exists; "
+              "the serlim ops run it at both sides of every default limit"]
 
 
 # ------------------------------------------------------------------------------------------------ reference decoder
@@ -250,6 +292,53 @@ def all_finite(v):
     return True
 
 
+def nullify_py(v):
+    """every non-finite double replaced by null (what the serializer writes)"""
+    if isinstance(v, list):
+        return [nullify_py(x) for x in v]
+    if isinstance(v, tuple) and v[0] == "d":
+        return v if (v[1] >> 52) & 0x7FF != 0x7FF else None
+    if isinstance(v, tuple) and v[0] == "o":
+        return ("o", [(k, nullify_py(x)) for k, x in v[1]])
+    return v
+
+
+def f32_to_double_bits(bits):
+    f = struct.unpack(">f", struct.pack(">I", bits))[0]
+    return struct.unpack(">Q", struct.pack(">d", f))[0]
+
+
+def api_reference(t):
+    """(result, operand) of an api op in python form, computed independently of model and implementation"""
+    k = t[1]
+    if k == "u64":
+        n = int(t[2])
+        return (n if n < 2 ** 63 else n - 2 ** 64), None
+    if k == "f32":
+        return ("d", f32_to_double_bits(int(t[2], 16))), None
+    if k == "initlist":
+        a = read_dump(t[2])
+        return list(a), a
+    if k == "pushback":
+        base, v = read_dump(t[2]), read_dump(t[3])
+        return (base + [v] if isinstance(base, list) else [v]), base
+    if k == "setidx":
+        base, i, v = read_dump(t[2]), int(t[3]), read_dump(t[4])
+        xs = list(base) if isinstance(base, list) else []
+        xs += [None] * (i + 1 - len(xs))
+        xs[i] = v
+        return xs, base
+    if k == "setkey":
+        base, key, v = read_dump(t[2]), unhex(t[3]), read_dump(t[4])
+        ms = list(base[1]) if isinstance(base, tuple) and base[0] == "o" else []
+        if any(kk == key for kk, _ in ms):
+            ms = [(kk, v if kk == key else x) for kk, x in ms]
+        else:
+            ms.append((key, v))
+        return ("o", ms), base
+    raise ValueError(k)
+
+
 def strings_utf8(v):
     def ok(b):
         try:
@@ -442,6 +531,14 @@ def gen_parse_cases(rng, scale, dflt, st):
     for i in range(6000 * scale):
         t = gen_ws(rng) + gen_text(rng, st, 0, rng.choice([0, 1, 2, 3, 4, 6])) + gen_ws(rng)
         cases.append({"cat": "grammar", "ops": [parse_op(dflt, t)]})
+    # F6: structured texts beyond 1 KiB (arrays / objects of many generated values)
+    for i in range(40 * scale):
+        n = rng.range(20, 120)
+        if rng.chance(1, 2):
+            t = b"[" + b",".join(gen_ws(rng) + gen_text(rng, st, 1, 3) for _ in range(n)) + b"]"
+        else:
+            t = b"{" + b",".join(gen_string(rng, st, 8) + b":" + gen_text(rng, st, 1, 3) for _ in range(n)) + b"}"
+        cases.append({"cat": "grammar-large", "ops": [parse_op(dflt, t)]})
     # every single escape form / every code-point boundary on its own
     for e in SIMPLE_ESC:
         cases.append({"cat": "escape-forms", "ops": [parse_op(dflt, b'"' + e + b'"'), parse_op(dflt, b'"x' + e + b'y"')]})
@@ -524,6 +621,7 @@ def gen_deep_cases(dflt):
 def run_child_8mib(hb, ops, timeout=600):
     """the harness alone, one process per op, RLIMIT_STACK = the default 8 MiB"""
     env = dict(os.environ)
+    env.update(HENV)
     env.setdefault("ASAN_OPTIONS", "detect_leaks=0:abort_on_error=0:exitcode=99:detect_stack_use_after_return=0")
     env.setdefault("UBSAN_OPTIONS", "print_stacktrace=1:halt_on_error=1:exitcode=98")
     res = []
@@ -688,6 +786,172 @@ def gen_value(rng, st, depth, maxdepth):
 
 INDENTS = [b"  ", b"  ", b"", b" ", b"\t", b"    ", b" \t"]
 
+# ------------------------------------------------------------------------------------------------ extension round: locale, API, limits
+LOCALES = [("xx_XX", "<U002C>", b","), ("yy_YY", "<U066B>", b"\xd9\xab")]      # decimal comma; a two-byte decimal point (ARABIC DECIMAL SEPARATOR)
+LOCALE_RESET = "locale C 2e"
+HENV = {}
+
+
+def build_locales(ctx):
+    """LC_NUMERIC-only locales built with localedef into ctx.work/locales (LOCPATH of every harness process).  Returns the list of
+    (name, decimal point bytes) that exist; [] when localedef is unavailable (noted in the evidence, not a violation)."""
+    d = os.path.join(ctx.work, "locales")
+    os.makedirs(d, exist_ok=True)
+    HENV["LOCPATH"] = d
+    cm = "<code_set_name> VERIF\n<comment_char> %\n<escape_char> /\n<mb_cur_min> 1\n<mb_cur_max> 2\nCHARMAP\n" + \
+         "".join("<U%04X> /x%02x c%d\n" % (i, i, i) for i in range(128)) + "<U066B> /xd9/xab ARABIC_DECIMAL_SEPARATOR\nEND CHARMAP\n"
+    open(os.path.join(d, "charmap"), "w").write(cm)
+    out = []
+    for name, sym, dp in LOCALES:
+        src = os.path.join(d, name + ".src")
+        open(src, "w").write('comment_char %%\nescape_char /\nLC_NUMERIC\ndecimal_point "%s"\nthousands_sep ""\ngrouping -1\nEND LC_NUMERIC\n' % sym)
+        try:
+            subprocess.run(["localedef", "-c", "-i", src, "-f", os.path.join(d, "charmap"), "--no-archive", os.path.join(d, name)],
+                           stdout=subprocess.PIPE, stderr=subprocess.PIPE, timeout=120)
+        except (OSError, subprocess.TimeoutExpired):
+            continue
+        if os.path.exists(os.path.join(d, name, "LC_NUMERIC")):
+            out.append((name, dp))
+    return out
+
+
+def probe_locales(ctx, hb, locs):
+    """keep the locales the harness process can really switch to (and that report the decimal point they were built with)"""
+    ok = []
+    for name, dp in locs:
+        out, rc, err = ctx.run_lines([hb], ["locale %s %s" % (name, dp.hex())], env=HENV)
+        if out and out[0] == "locale " + dp.hex():
+            ok.append((name, dp))
+    return ok
+
+
+def gen_float_text(rng, st):
+    """a number token that takes the floating path (fraction and/or exponent), or an integer beyond int64"""
+    for _ in range(50):
+        t = rng.choice(NUM_EDGES) if rng.chance(1, 4) else gen_number(rng, st)
+        if b"." in t or b"e" in t or b"E" in t or len(t) > 19:
+            return t
+    return b"1.5"
+
+
+def gen_locale_cases(rng, scale, dflt, st, locs):
+    """F1 (review): parse / serialize / wrappers of texts and values with doubles while LC_NUMERIC has a decimal comma (resp. a
+    two-byte decimal point); every case starts with `locale <name> <dp>` and ends with the reset"""
+    cases = []
+    for name, dp in locs:
+        lop = "locale %s %s" % (name, dp.hex())
+        for i in range(4 * scale):
+            ops = [lop]
+            for _ in range(20):
+                k = rng.below(6)
+                n = gen_float_text(rng, st)
+                if k == 0:
+                    t = n
+                elif k == 1:
+                    t = b"[" + b",".join(gen_float_text(rng, st) for _ in range(rng.range(1, 4))) + b"]"
+                elif k == 2:
+                    t = b'{"a":' + n + b',"b":[' + gen_float_text(rng, st) + b"]}"
+                elif k == 3:
+                    t = gen_ws(rng) + n + gen_ws(rng)
+                else:
+                    t = gen_text(rng, st, 0, 2)
+                w = rng.below(8)
+                if w == 0:
+                    ops.append("pvia %s %s" % (rng.choice(WRAPPERS), hexs(t)))
+                elif w == 1:
+                    cuts = sorted(rng.below(len(t) + 1) for _ in range(rng.choice([0, 1, 2])))
+                    ops.append("stream %s %s %s" % (" ".join(map(str, dflt)), ",".join(map(str, cuts)) or "-", hexs(t)))
+                else:
+                    ops.append(parse_op(dflt, t))
+            for _ in range(20):
+                ds = [("d", gen_double_bits(rng, st)) for _ in range(rng.range(1, 4))]
+                v = rng.choice([ds[0], ds, [ds[0], ("o", [(b"k", ds[-1])])], ("o", [(b"x", ds)])])
+                src = "v" + v_canon(v)
+                w = rng.below(6)
+                if w == 0:
+                    ops.append("svia dump %d 32 0 %d %s -" % (rng.choice([-1, 0, 2]), rng.below(2), src))
+                elif w == 1:
+                    ops.append("svia ostream %s -" % src)
+                else:
+                    ops.append("ser %d %d %s %s -" % (rng.below(2), rng.below(2), hexs(rng.choice(INDENTS)), src))
+            ops.append(LOCALE_RESET)
+            cases.append({"cat": "locale-" + name, "ops": ops})
+    return cases
+
+
+def small_value(rng, st):
+    return gen_value(rng, st, 0, rng.choice([0, 0, 1, 2]))
+
+
+F32_EDGES = [0x00000000, 0x80000000, 0x00000001, 0x007FFFFF, 0x00800000, 0x7F7FFFFF, 0xFF7FFFFF, 0x3F800000, 0x3DCCCCCD, 0x7F800000, 0xFF800000, 0x7FC00000,
+             0x7FA00000, 0xFFC00001, 0x00400000, 0x80000002, 0x4B800000, 0x33800000]
+U64_EDGES = [0, 1, 2 ** 31, 2 ** 32, 2 ** 53, 2 ** 63 - 1, 2 ** 63, 2 ** 63 + 1, 2 ** 64 - 1, 2 ** 64 - 2, 10 ** 19, 12345678901234567890]
+
+
+def gen_api_cases(rng, scale, st):
+    """F4.4 (review): Json(uint64_t) incl. values above INT64_MAX (wrap negative), Json(float), the initializer-list constructor,
+    copy assignment + push_back / operator[](index) / operator[](key) incl. on a value of another type"""
+    cases = []
+    ops = ["api u64 %d" % n for n in U64_EDGES] + ["api u64 %d" % rng.below(2 ** 64) for _ in range(20 * scale)]
+    cases.append({"cat": "api-u64", "ops": ops})
+    ops = ["api f32 %08x" % b for b in F32_EDGES] + ["api f32 %08x" % rng.below(2 ** 32) for _ in range(60 * scale)]
+    cases.append({"cat": "api-float", "ops": ops})
+    for i in range(150 * scale):
+        k = rng.below(4)
+        if k == 0:
+            a = [small_value(rng, st) for _ in range(rng.below(5))]
+            op = "api initlist %s" % v_canon(a)
+        elif k == 1:
+            base = rng.choice([small_value(rng, st), [small_value(rng, st) for _ in range(rng.below(4))]])
+            op = "api pushback %s %s" % (v_canon(base), v_canon(small_value(rng, st)))
+        elif k == 2:
+            base = rng.choice([small_value(rng, st), [small_value(rng, st) for _ in range(rng.below(4))]])
+            op = "api setidx %s %d %s" % (v_canon(base), rng.choice([0, 0, 1, 2, 3, 7, rng.below(20)]), v_canon(small_value(rng, st)))
+        else:
+            base = small_value(rng, st)
+            if rng.chance(2, 3):
+                ms, seen = [], set()
+                for _ in range(rng.below(5)):
+                    key = rand_utf8(rng, rng.below(3))
+                    if key not in seen:
+                        seen.add(key)
+                        ms.append((key, small_value(rng, st)))
+                base = ("o", ms)
+            key = rng.choice([kk for kk, _ in base[1]]) if isinstance(base, tuple) and base[0] == "o" and base[1] and rng.chance(1, 2) else rand_utf8(rng, rng.below(3))
+            op = "api setkey %s %s %s" % (v_canon(base), hexs(key), v_canon(small_value(rng, st)))
+        cases.append({"cat": "api-build", "ops": [op]})
+    return cases
+
+
+def gen_limit_ser_cases(dflt):
+    """F3 (review): J2's hypothesis `v.within lim` at its boundary: values AT and just BEYOND every default limit, serialized and
+    re-parsed under the default limits (must come back iff within) and under limits that admit them (must come back)"""
+    D, A, M, S = dflt
+    big = (D + 8, A + 8, M + 8, S + 8)
+    cases = []
+
+    def nestv(d):
+        v = 7
+        for _ in range(d):
+            v = [v]
+        return v
+    shapes = []
+    for n in (min(A, SIZE_CAP), min(A, SIZE_CAP) + 1):
+        shapes.append(("array-%d" % n, list(range(n)), 0))
+    for n in (min(M, SIZE_CAP), min(M, SIZE_CAP) + 1):
+        shapes.append(("object-%d" % n, ("o", [(b"%d" % i, i) for i in range(n)]), 1))
+    for n in (min(S, STRING_CAP), min(S, STRING_CAP) + 2):      # (a raw string of S + 1 bytes is still accepted: the guard runs before the append, J4_limits)
+        shapes.append(("string-%d" % n, b"x" * n, 0))
+    if D <= DEPTH_LOCKSTEP:
+        for d in (D, D + 1):
+            shapes.append(("depth-%d" % d, nestv(d), 0))
+    for name, v, sort in shapes:
+        src = "v" + v_canon(v)
+        ops = ["serlim %d %d %d %d 0 %d 2020 %s -" % (lim[0], lim[1], lim[2], lim[3], sort, src) for lim in (dflt, big)]
+        cases.append({"cat": "limit-ser", "ops": ops, "shape": name})
+    return cases
+
+
 
 def has_object(v):
     if isinstance(v, list):
@@ -716,6 +980,38 @@ def gen_ser_specs(rng, scale, st):
     for i in range(1200 * scale):
         t = gen_text(rng, st, 0, rng.choice([1, 2, 3, 4]))
         specs.append((rng.below(2), rng.below(2), rng.choice(INDENTS), "t" + t.hex(), NOVALUE))
+    # F4.5 / J3_nonfinite: NaN and +-Infinity inside values (the serializer writes null)
+    NONFINITE = [0x7FF8000000000000, 0x7FF0000000000000, 0xFFF0000000000000, 0x7FF0000000000001, 0xFFFFFFFFFFFFFFFF, 0x7FF4000000000000]
+    for i in range(60 * scale):
+        nf = ("d", rng.choice(NONFINITE))
+        v = rng.choice([nf, [nf], [1, nf, ("d", 0x3FF8000000000000)], ("o", [(b"a", nf)]), [gen_value(rng, st, 0, 1), nf, ("o", [(b"k", [nf])])]])
+        specs.append((rng.below(2), rng.below(2), rng.choice(INDENTS), "v" + v_canon(v), v))
+        st["ser-nonfinite"] += 1
+    # F6: containers beyond 16 elements (std::sort's introsort path for the keys), long strings, long keys
+    for i in range(25 * scale):
+        k = rng.below(3)
+        if k == 0:
+            n = rng.choice([17, 33, 64, rng.range(17, 200)])
+            keys = set()
+            while len(keys) < n:
+                keys.add(rand_utf8(rng, rng.range(1, 6)))
+            ks = sorted(keys)
+            for j in range(n - 1, 0, -1):
+                r = rng.below(j + 1)
+                ks[j], ks[r] = ks[r], ks[j]
+            v = ("o", [(kk, rng.choice([j, None, True, ("d", gen_double_bits(rng, st))])) for j, kk in enumerate(ks)])
+        elif k == 1:
+            v = [gen_value(rng, st, 1, 2) for _ in range(rng.range(17, 300))]
+        else:
+            v = [rand_utf8(rng, rng.range(65, 3000)), ("o", [(rand_utf8(rng, rng.range(65, 400)), 1)])]
+        specs.append((rng.below(2), 1 if k == 0 else rng.below(2), rng.choice(INDENTS), "v" + v_canon(v), v))
+        st["ser-big"] += 1
+    # F5.5: strings that are NOT UTF-8 (outside J3's hypothesis; lockstep only: the serializer copies the bytes)
+    for i in range(40 * scale):
+        raw = rng.bytes(rng.range(1, 12))
+        v = rng.choice([raw, [raw], ("o", [(raw, raw)])])
+        specs.append((rng.below(2), rng.below(2), b"  ", "v" + v_canon(v), v))
+        st["ser-not-utf8"] += 1
     # deep values (serializer recursion, pretty indentation at depth)
     for d in (5, 30, 99, 100):
         v = 7
@@ -817,8 +1113,22 @@ def monitor_ser(op, line, value):
     if src[0] == "v" and value is NOVALUE:
         value = read_dump(src[1:])
     if value is not NOVALUE:
-        if not (all_finite(value) and strings_utf8(value)):
-            return []           # outside the property's hypothesis (non-finite number / not UTF-8)
+        if not strings_utf8(value):
+            # strings that are not UTF-8: outside J3's hypothesis (no reference decoder), but J2 does not need it (Good + within):
+            # the bytes are copied and must come back
+            if all_finite(value) and a[1] != "1" and not (t[0] == "svia" and t[1] == "string" and isinstance(value, bytes)):
+                return ["J2: parse(serialize(v)) != v for a value with non-UTF-8 strings: %s -> text %s" % (op[:140], text[:80])]
+            return []
+        if not all_finite(value):
+            # J3_nonfinite: RFC 8259 has no NaN/Infinity; the text must still be valid JSON, denoting the value with null in their place
+            if t[0] == "svia" and t[1] == "string" and isinstance(value, bytes):
+                return []
+            r = py_ref(text)
+            if r is None or r[0] != "ok":
+                return ["J3: serializer output for a value with NaN/Infinity is not RFC 8259 text: %s -> %r" % (op[:120], text[:80])]
+            if canon_ref(r[1]) != v_canon(nullify_py(value), sort=True):
+                return ["J3: serializer output for a value with NaN/Infinity does not denote the value with null in their place: %s -> %r" % (op[:120], text[:80])]
+            return []
         if t[0] == "svia" and t[1] == "string" and isinstance(value, bytes):
             return []           # operator std::string of a string value is the raw string, not JSON text
         want = v_canon(value, sort=True)
@@ -844,6 +1154,61 @@ def monitor_ser(op, line, value):
         if sort and not keys_sorted(r[1]):
             bad.append("J2: sortKeys output has unsorted or repeated keys: %s -> %r" % (op[:100], text[:80]))
     return bad
+
+
+def monitor_api(op, line):
+    """api ops: the constructed value against an independent reference, the operand untouched (copy semantics), and J2/J3 on its text"""
+    t = op.split()
+    if line.startswith("throw") or line.startswith("crash:"):
+        return ["J2: the value-construction API throws or crashes: %s -> %s" % (op[:120], line)]
+    a = line.split()
+    if len(a) != 5 or a[0] != "ok" or a[4] not in ("0", "1"):
+        return ["J2: unexpected answer `%s` to %s" % (line[:80], op[:80])]
+    try:
+        want, operand = api_reference(t)
+    except Exception as e:
+        return ["correspondence-machinery: api reference failed on %s (%s)" % (op[:100], e)]
+    bad = []
+    wd = v_canon(want, sort=True)
+    got = a[1]
+    if t[1] == "f32" and isinstance(want, tuple) and (want[1] >> 52) & 0x7FF == 0x7FF and want[1] & ((1 << 52) - 1):
+        if not (got.startswith("d") and (int(got[1:], 16) >> 52) & 0x7FF == 0x7FF and int(got[1:], 16) & ((1 << 52) - 1)):
+            bad.append("J2: Json(float NaN) is not a NaN: %s -> %s" % (op[:100], got[:60]))
+        wd = got
+    elif got != wd:
+        bad.append("J2: constructed value differs from the reference: %s -> got %s want %s" % (op[:120], got[:80], wd[:80]))
+    if a[2] != v_canon(operand, sort=True):
+        bad.append("J2: the operand of a copy was modified: %s -> %s" % (op[:120], a[2][:80]))
+    if bad or not strings_utf8(want):
+        return bad
+    text = unhex(a[3])
+    r = py_ref(text)
+    if r is None or r[0] != "ok":
+        bad.append("J3: serializer output is not RFC 8259 text for the reference decoder: %s -> %r" % (op[:120], text[:80]))
+    elif canon_ref(r[1]) != v_canon(nullify_py(want), sort=True):
+        bad.append("J2: serialized text denotes another value for the reference decoder: %s -> %r" % (op[:100], text[:60]))
+    if all_finite(want) and a[4] != "1":
+        bad.append("J2: parse(serialize(v)) != v for %s" % op[:140])
+    return bad
+
+
+def monitor_serlim(op, line):
+    """serlim: the value comes back iff it is within the limits given (J2 with its hypothesis, at the boundary)"""
+    t = op.split()
+    if line.startswith("throw") or line.startswith("crash:"):
+        return ["J2: serializing/parsing throws or crashes: %s -> %s" % (op[:120], line)]
+    a = line.split()
+    if len(a) != 2 or a[1] not in ("0", "1"):
+        return ["J2: unexpected answer `%s` to %s" % (line[:80], op[:80])]
+    lim = tuple(int(x) for x in t[1:5])
+    v = read_dump(t[8][1:])
+    d, n, m, sl = measure_dump(v)
+    within = d <= lim[0] and n <= lim[1] and m <= lim[2] and sl <= lim[3]
+    if within and a[1] != "1":
+        return ["J2: a value within the limits %s (depth %d, array %d, members %d, string %d) does not come back from its own serialization: %s" % (lim, d, n, m, sl, op[:100])]
+    if a[1] == "1" and (d > lim[0] or n > lim[1] or m > lim[2] or sl > lim[3] + SLACK):
+        return ["J4: a value beyond the limits %s (depth %d, array %d, members %d, string %d) was accepted: %s" % (lim, d, n, m, sl, op[:100])]
+    return []
 
 
 def monitor_wrapper(op, line):
@@ -929,19 +1294,29 @@ def run(ctx: Ctx):
         ctx.audit(MODULES, OBLIGATIONS)
         if not quick:
             ctx.leanchecker(MODULES + ["IoraModel.Lemmas.Json", "IoraModel.Lemmas.JsonSpec", "IoraModel.Lemmas.JsonSer", "IoraModel.Lemmas.JsonSort",
-                                       "IoraModel.Lemmas.JsonLimits", "IoraModel.Model.Json", "IoraModel.Model.JsonSpec", "IoraModel.Gen.Json"])
+                                       "IoraModel.Lemmas.JsonLimits", "IoraModel.Lemmas.JsonApi", "IoraModel.Model.Json", "IoraModel.Model.JsonSpec",
+                                       "IoraModel.Model.JsonApi", "IoraModel.Gen.Json"])
     else:
         ctx.cov["obligations"] = len(OBLIGATIONS)
     hb = ctx.build_harness("harness/c13_json.cpp", sanitize=True)
     dist = {}
     st = {k: 0 for k in ("raw", "raw-utf8", "esc", "u-bmp", "u-pair", "u-lone", "num-edge", "num-int", "num-int-edge", "num-int-big", "num-float", "dup-key",
-                         "dup-key-respelled", "dbl-edge", "dbl-random-bits", "dbl-short-decimal", "dbl-integral", "dbl-subnormal", "dbl-pow10")}
+                         "dup-key-respelled", "dbl-edge", "dbl-random-bits", "dbl-short-decimal", "dbl-integral", "dbl-subnormal", "dbl-pow10",
+                         "ser-nonfinite", "ser-big", "ser-not-utf8")}
     stats = {"ref_accepts": 0, "ref_rejects": 0, "no_reference": 0, "impl_accepts_ref_rejects": 0, "within_limits": 0, "lone_surrogate_texts": 0,
              "ser_ops": 0, "ser_with_hash_order": 0, "ops_through_public_wrappers": 0}
     if hb:
         dflt = gen_defaults()
         DEFAULTS[0] = dflt
-        cases = load_corpus()
+        locs = probe_locales(ctx, hb, build_locales(ctx))
+        ctx.extra["numeric_locales"] = {"built_and_usable": ["%s (decimal point %s)" % (n, d.hex()) for n, d in locs],
+                                        "note": None if len(locs) == len(LOCALES) else
+                                        "localedef unavailable or locale not loadable: the locale family was SKIPPED for the missing ones (not a violation)"}
+        usable = set(n for n, _ in locs) | {"C"}
+        cases = [c for c in load_corpus() if all(o.split()[1] in usable for o in c["ops"] if o.startswith("locale "))]
+        cases += gen_locale_cases(rng.fork("locale"), scale, dflt, st, locs)
+        cases += gen_api_cases(rng.fork("api"), scale, st)
+        cases += gen_limit_ser_cases(dflt)
         cases += gen_parse_cases(rng.fork("parse"), scale, dflt, st)
         cases += gen_mutated_cases(rng.fork("mut"), scale, dflt, st)
         route_through_wrappers(rng.fork("wrap"), cases, dflt, stats)
@@ -950,7 +1325,7 @@ def run(ctx: Ctx):
         need = [i for i, sp in enumerate(specs) if sp[1] == 0 and (sp[4] is NOVALUE or has_object(sp[4]))]
         orders = {}
         if need:
-            out, rc, err = ctx.run_lines([hb], ["order " + specs[i][3] for i in need])
+            out, rc, err = ctx.run_lines([hb], ["order " + specs[i][3] for i in need], env=HENV)
             for i, l in zip(need, out):
                 if l and l[0] in "ntfids[{" and not l.startswith("throw") and " " not in l:
                     orders[i] = l
@@ -972,6 +1347,7 @@ def run(ctx: Ctx):
             cases.append({"cat": "ser-value" if v is not NOVALUE else "ser-text", "ops": [op]})
             stats["ser_ops"] += 1
             stats["ser_with_hash_order"] += o != "-"
+        cases.append({"cat": "counters", "ops": ["counters"]})      # harness-side branch counters of the whole run (implementation only)
         res = run_cases(ctx, hb, cases)
         # F8: a timeout of the whole batch is machinery, not a verdict - unless the op also hangs when it runs alone
         for c, impl, model in res:
@@ -986,6 +1362,16 @@ def run(ctx: Ctx):
         if deep:
             outs = run_child_8mib(hb, deep)
             res.append(({"cat": "deep-default", "ops": deep}, outs, [None] * len(deep)))
+        # F2 (review): dump / re-parse / copy / compare / destroy of programmatically built values at depth 101 and at stackSafeDepth,
+        # real code alone, 8 MiB stack
+        safe = safe_depth()
+        dops = ["deepser %s %d" % (k, d) for d in (dflt[0] + 1, safe) for k in ("a", "o")]
+        douts = run_child_8mib(hb, dops)
+        ctx.extra["deep_serialize_8MiB"] = dict(zip(dops, douts))
+        for o, l in zip(dops, douts):
+            if not (l.startswith("ok ") and l.endswith(" 1")):
+                ctx.violation("property", "J2: dump()/parse/copy/destroy of a value nested %s deep (<= stackSafeDepth) fails on an 8 MiB stack: %s -> %s" % (o.split()[2], o, l),
+                              {"ops": [o], "observed": [l]}, found_input=True)
         stack_check(ctx, hb, dflt)
         n_mismatch = 0
         for c, impl, model in res:
@@ -1007,6 +1393,17 @@ def run(ctx: Ctx):
                             stats["no_reference"] += 1
                 elif op.split(" ", 1)[0] in ("pvia", "pthrow", "stream"):
                     f, _ = monitor_wrapper(op, l)
+                elif op.startswith("api "):
+                    f = monitor_api(op, l)
+                elif op.startswith("serlim "):
+                    f = monitor_serlim(op, l)
+                    if l in ("order-changed", "order-invalid", "bad-op"):
+                        f = f or ["correspondence-machinery: `%s` for %s" % (l, op[:100])]
+                elif op.startswith("locale "):
+                    f = [] if l == "locale " + op.split()[2] or l == "crash:too-many-crashes" else ["correspondence-machinery: `%s` for %s" % (l, op)]
+                elif op == "counters":
+                    f = []
+                    ctx.extra["implementation_branch_counters"] = dict((kv.rsplit("=", 1)[0], int(kv.rsplit("=", 1)[1])) for kv in l.split()[1:]) if l.startswith("counters") else {"error": l}
                 elif op.startswith("ser ") or op.startswith("svia "):
                     f = monitor_ser(op, l, values.get(op, NOVALUE))
                     if l in ("order-changed", "order-invalid", "bad-op"):
@@ -1016,7 +1413,7 @@ def run(ctx: Ctx):
                 fails += [(op, x) for x in f]
             if len(ctx.cov["samples"]) < 6 and ctx.rng.chance(1, 400):
                 ctx.sample({"cat": c["cat"], "ops": [o[:200] for o in c["ops"][:3]], "impl": [l[:200] for l in impl[:3]]})
-            mism = [(i, a, b) for i, (a, b) in enumerate(zip(impl, model)) if b is not None and a != b]
+            mism = [(i, a, b) for i, (a, b) in enumerate(zip(impl, model)) if b is not None and a != b and c["cat"] != "counters"]
             if fails:
                 report_property(ctx, hb, c, impl, model, fails)
             elif mism:
@@ -1028,6 +1425,7 @@ def run(ctx: Ctx):
                                "ops": [c["ops"][i]], "observed": [a], "expected_by_model": [b]}, found_input=False)
         ctx.extra["lockstep_mismatches_without_monitor_failure"] = n_mismatch
     ctx.extra["input_distribution"] = dist
+    ctx.extra["input_distribution_note"] = "cases per generator family; `implementation_branch_counters` are counted inside the harness process (value kinds incl. NaN/Inf and doubles handled under a non-C locale, error kinds, text sizes, API entry points)"
     ctx.extra["generator_item_counts"] = st
     ctx.extra["reference_statistics"] = stats
     ctx.extra["repo_tree_sha"] = ctx.repo_tree_sha(ANCHOR_FILES)
@@ -1036,11 +1434,15 @@ def run(ctx: Ctx):
         "the parser is more lenient than RFC 8259 (accepts \\v and \\f as white space, raw control characters and invalid UTF-8 inside strings); the property only demands acceptance of valid texts",
         "a string may exceed stringLengthMax by up to 4 bytes (the guard runs before the append; J4_limits states the exact bound); membersMax counts distinct keys and is tested before the key is read",
         "an unpaired \\uD800-\\uDFFF escape decodes to U+FFFD (RFC 8259 §8.2 leaves it open; the reference's lone surrogates are mapped the same way before comparing)",
+        "NaN and +-Infinity serialize as `null` (RFC 8259 has no text for them): valid JSON, the round trip yields null there (J3_nonfinite; J2 claims finite numbers only)",
+        "Json(std::uint64_t) above INT64_MAX stores the value wrapped to a negative int64 (static_cast; Json(18446744073709551615) holds -1): a conversion of the construction API, modelled (ofUInt64) and exercised, outside the property's text",
+        "JsonStreamParser keeps a latched value: feed(\"1\") then feed(\" x\") leaves complete() with value 1 although the concatenation is not JSON (S3 states exactly what a latched value is; S1 is the statement for texts that parse as a whole)",
+        "operator>> / JsonFileStore read with the DEFAULT ParseLimits whatever was written (W2_stream_operators_gap): see not_proved and the report for C11",
     ]
     ctx.assumptions += [
-        "\"C\" numeric locale and default rounding mode: std::strtod / snprintf(\"%.*g\") are correctly rounded (glibc) - validated bit for bit by the lockstep against an exact big-integer implementation and against Python's float()/repr, not proved",
-        "std::isspace / std::isdigit (argument converted to unsigned char, pinned by gen_conformance) in the \"C\" locale: {9..13, 32} / {'0'..'9'}, false for bytes >= 0x80",
-        "LC_NUMERIC is \"C\" (iora never calls setlocale; only C/C.utf8/POSIX exist in the sandbox): a host application that switches the numeric locale changes the decimal point of snprintf/strtod - candidate finding, not reproducible here, not repaired",
+        "default rounding mode; in the C locale std::strtod and std::to_chars(general, precision) (= the `%.*g` text) are correctly rounded (glibc/libstdc++) - validated bit for bit by the lockstep against an exact big-integer implementation and against Python's float()/repr, not proved",
+        "std::isspace / std::isdigit (argument converted to unsigned char, pinned by gen_conformance) in the \"C\" LC_CTYPE: {9..13, 32} / {'0'..'9'}, false for bytes >= 0x80 (a single-byte LC_CTYPE that classifies bytes >= 0x80 as white space would make the parser more lenient, never stricter)",
+        "LC_NUMERIC is NOT assumed to be \"C\" any more (repair FC13b): strtod under a locale with decimal point dp reads the token with dp in place of `.` exactly as the C strtod reads the JSON token (LocaleLibc; exercised under a decimal comma and a two-byte decimal point); std::to_chars is locale independent by [charconv.to.chars]",
         "std::from_chars(int64) = exact decimal value or result_out_of_range; std::to_string(int64) = minimal decimal digits",
         "std::unordered_map iteration order is an arbitrary permutation of the members (fed to the model as an input for unsorted serialization); std::sort on std::string keys = bytewise lexicographic order",
     ]
@@ -1079,11 +1481,16 @@ def route_through_wrappers(rng, cases, dflt, stats):
         c["cat"] = c["cat"] + "+wrapper"
 
 
+def safe_depth():
+    m = re.search(r"def stackSafeDepth : Nat := (\d+)", open(os.path.join(LEAN, "IoraModel", "Props", "C13.lean")).read())
+    return int(m.group(1))
+
+
 def stack_check(ctx, hb, dflt):
     """F1: bytes of C++ stack one nesting level costs the real parser + serializer + destructor (measured on a painted private stack,
     sanitizer build = the larger frames) and the bound `stackSafeDepth` pinned in gen_conformance: the check is only valid while
     stackSafeDepth levels fit comfortably (a quarter of) the default 8 MiB stack"""
-    out, rc, err = ctx.run_lines([hb], ["stackuse a 64", "stackuse a 192", "stackuse o 64", "stackuse o 192"], timeout=300)
+    out, rc, err = ctx.run_lines([hb], ["stackuse a 64", "stackuse a 192", "stackuse o 64", "stackuse o 192"], timeout=300, env=HENV)
     try:
         u = [int(l.split()[0]) for l in out]
         per = max((u[1] - u[0]) / 128.0, (u[3] - u[2]) / 128.0)
@@ -1108,11 +1515,11 @@ def run_cases(ctx, hb, cases):
     """lockstep; when the model driver cannot be built (already reported as a proof violation) the implementation still runs alone,
     so that the property monitors can supply a failing input"""
     try:
-        return ctx.lockstep("json", hb, cases, timeout=1800 if ctx.tier == "quick" else 7200)
+        return ctx.lockstep("json", hb, cases, timeout=1800 if ctx.tier == "quick" else 7200, impl_env=HENV)
     except ModelBuildError:
         res = []
         for c in cases:
-            out, rc, err = ctx.run_lines([hb], c["ops"])
+            out, rc, err = ctx.run_lines([hb], c["ops"], env=HENV)
             out += ["crash:rc=%s" % rc] * (len(c["ops"]) - len(out))
             res.append((c, out, [None] * len(c["ops"])))
         return res
@@ -1125,6 +1532,8 @@ def replay(ctx):
     ctx.translate(["json"])
     ctx.lake_build(MODULES)
     hb = ctx.build_harness("harness/c13_json.cpp", sanitize=True)
+    if hb:
+        build_locales(ctx)
     if not hb or not ops:
         print("replay: nothing to run (kind=%s)" % obj.get("kind"))
         return 1 if ctx.violations else 0
@@ -1135,7 +1544,8 @@ def replay(ctx):
         DEFAULTS[0] = DEFAULTS[0] or gen_defaults()
         k = o.split(" ", 1)[0]
         f = monitor_parse(o, a)[0] if k == "parse" else monitor_ser(o, a, NOVALUE) if k in ("ser", "svia") else \
-            monitor_wrapper(o, a)[0] if k in ("pvia", "pthrow", "stream") else []
+            monitor_wrapper(o, a)[0] if k in ("pvia", "pthrow", "stream") else monitor_api(o, a) if k == "api" else \
+            monitor_serlim(o, a) if k == "serlim" else []
         for x in f:
             print("PROPERTY FAILS:", x[:300])
         still = still or bool(f) or (b is not None and a != b)
@@ -1152,6 +1562,9 @@ def report_property(ctx, hb, c, impl, model, fails):
         return
     ops = [op]
     cls = what.split(":")[0]
+    # an op that ran under a non-C numeric locale is replayed under it
+    pre = [c["ops"][0]] if c["ops"] and c["ops"][0].startswith("locale ") and not op.startswith("locale ") else []
+    post = [LOCALE_RESET] if pre else []
     # shrink a failing parse input bytewise
     if op.startswith("parse "):
         t = op.split()
@@ -1159,7 +1572,8 @@ def report_property(ctx, hb, c, impl, model, fails):
 
         def still(sub):
             o = " ".join(t[:5] + [hexs(bytes(sub))])
-            out, rc, err = ctx.run_lines([hb], [o], timeout=60)
+            out, rc, err = ctx.run_lines([hb], pre + [o], timeout=60, env=HENV)
+            out = out[len(pre):]
             l = out[0] if out else "crash:rc=%s" % rc
             f, _ = monitor_parse(o, l)
             return any(x.split(":")[0] == cls for x in f)
@@ -1169,7 +1583,8 @@ def report_property(ctx, hb, c, impl, model, fails):
                 ops = [" ".join(t[:5] + [hexs(small)])]
         except Exception:
             pass
-    out, rc, err = ctx.run_lines([hb], ops, timeout=120)
+    ops = pre + ops + post
+    out, rc, err = ctx.run_lines([hb], ops, timeout=120, env=HENV)
     san = re.search(r"SUMMARY: (\w+Sanitizer): ([\w-]+)[^\n]*", err or "")
     obj = {"sanitizer": san.group(0)[:300] if san else None, "ops": ops, "observed": out or ["crash:rc=%s" % rc], "original_op": op[:2000], "failures": [w for _, w in fails[:5]], "category": c["cat"],
            "expected_by_model": [m for o, m in zip(c["ops"], model) if o == op][:1], "stderr_tail": err[-800:] if rc else ""}
